@@ -560,7 +560,7 @@ theorem ssSwap_sum_le {opool apool off : Nat} {f : Fees} {amp po pa : Nat} {c : 
 theorem ssInit_inv (a b : Nat) : SsInv (ssInit a b) := by
   constructor <;> simp [ssInit, lpSum]
 
-theorem ssWithdraw_inv {s s' : SsSt} {u amt : Nat} (hI : SsInv s) (h : ssWithdraw s u amt = .ok s') :
+theorem ssWithdraw_inv {cfg : SsCfg} {s s' : SsSt} {u amt : Nat} (hI : SsInv s) (h : ssWithdraw cfg s u amt = .ok s') :
     SsInv s' := by
   unfold ssWithdraw at h
   obtain ⟨_, g1, h⟩ := Res.bind_ok_inv h
